@@ -180,6 +180,49 @@ pub fn run(ctx: &mut Ctx) {
         ctx.require(&r, &["divide_by_zero", "nan_operand", "divide_by_infinity_is_zero", "zero_times_infinity", "infinite_result", "ok_exact", "ok_truncated", "interval_range_error"]);
     }
 
+    // hidden state: every ordered pair of (receiver, operand) cases of a small structured alphabet, each pair on a
+    // fresh thread; the second result must be what the reference says for the second case alone
+    let hrecv: Vec<i64> = vec![0, 1, 2, 3, 11, 12, 13, 16, 24, 25, 1000, 1001];
+    let mut hk: Vec<f64> = Vec::new();
+    for b in [1.0f64, 2.0, 0.5, 3.0] {
+        for u in -2i64..=2 { hk.push(f64::from_bits((b.to_bits() as i64 + u) as u64)); }
+    }
+    let hc: Vec<(i64, f64)> = hrecv.iter().flat_map(|&x| hk.iter().map(move |&k| (x, k))).collect();
+    let hcr = &hc;
+    let nh = hc.len() as u64;
+    let r = ctx.sweep_each("two_step_histories_on_fresh_threads", "every ordered pair of cases (months in {0,1,2,3,11,12,13,16,24,25,1000,1001}) x (multipliers 1, 2, 0.5, 3 and their +/-2 ulp neighbours): IntervalYM and IntervalDT mul / div of the second case after the first, on a fresh thread", nh * nh, 256, |idx, acc| {
+        let (x1, k1) = hcr[(idx / nh) as usize];
+        let (x2, k2) = hcr[(idx % nh) as usize];
+        acc.states += 1;
+        acc.t(4);
+        acc.traces += 1;
+        acc.nontrivial += 1;
+        let res = std::thread::scope(|s| s.spawn(|| {
+            let mut out = Vec::new();
+            for recv in [Recv::Ym, Recv::Dt] {
+                for div in [false, true] {
+                    let _ = run_impl(recv, x1, k1, div);
+                    out.push((recv, div, run_impl(recv, x2, k2, div)));
+                }
+            }
+            out
+        }).join());
+        acc.cls("second_case");
+        match res {
+            Ok(outs) => for (recv, div, got) in outs {
+                let limit: i128 = if recv == Recv::Ym { 2_136_000_000 } else { 100_000_000 * US_DAY as i128 };
+                match got {
+                    Ok(g) => if let Err(exp) = judge(x2 as i128, k2, div, limit, &g) {
+                        acc.fail(&format!("C14:{recv:?}:history:result-depends-on-an-earlier-call"), idx, || (format!("{recv:?}({x1}) {} {k1:?}, then {recv:?}({x2}) {} {k2:?}", if div { "/" } else { "*" }, if div { "/" } else { "*" }), exp, format!("{g:?}"), String::new()));
+                    },
+                    Err(()) => acc.fail("C14:history:panic", idx, || (format!("{recv:?}({x2}) with {k2:?}"), "no panic".into(), "panic".into(), String::new())),
+                }
+            },
+            Err(_) => acc.fail("C14:history:panic", idx, || ("thread".into(), "no panic".into(), "panic".into(), String::new())),
+        }
+    });
+    ctx.require(&r, &["second_case"]);
+
     // integer multipliers: exactly x*k while |x*k| < 2^53 — every k in -300..=300 on a structured receiver set
     let ints: Vec<i64> = (-300..=300).collect();
     let mut xs: Vec<i64> = Vec::new();
